@@ -110,6 +110,33 @@ impl CatchGradualDifficulty {
     }
 }
 
+impl CatchGradualDifficulty {
+    /// Same as [`Iterator::nth`] except that `n` is clamped to the amount of
+    /// remaining values, i.e. the last value is returned if fewer than
+    /// `n + 1` values remain.
+    pub(crate) fn nth_clamped(&mut self, n: usize) -> Option<CatchDifficultyAttributes> {
+        let skip_iter = self.diff_objects.iter().skip(self.idx.saturating_sub(1));
+
+        let mut take = cmp::min(n, self.len().saturating_sub(1));
+
+        // The first palpable object has no difficulty object
+        if self.idx == 0 && take > 0 {
+            take -= 1;
+            self.attrs.add_object_count(self.count[self.idx]);
+            self.idx += 1;
+        }
+
+        for curr in skip_iter.take(take) {
+            self.movement.process(curr, &self.diff_objects);
+
+            self.attrs.add_object_count(self.count[self.idx]);
+            self.idx += 1;
+        }
+
+        self.next()
+    }
+}
+
 impl Iterator for CatchGradualDifficulty {
     type Item = CatchDifficultyAttributes;
 
@@ -143,25 +170,14 @@ impl Iterator for CatchGradualDifficulty {
     }
 
     fn nth(&mut self, n: usize) -> Option<Self::Item> {
-        let skip_iter = self.diff_objects.iter().skip(self.idx.saturating_sub(1));
+        // Fewer than `n + 1` values remain so the iterator is exhausted
+        if n >= self.len() {
+            self.idx = self.diff_objects.len() + 1;
 
-        let mut take = cmp::min(n, self.len().saturating_sub(1));
-
-        // The first palpable object has no difficulty object
-        if self.idx == 0 && take > 0 {
-            take -= 1;
-            self.attrs.add_object_count(self.count[self.idx]);
-            self.idx += 1;
+            return None;
         }
 
-        for curr in skip_iter.take(take) {
-            self.movement.process(curr, &self.diff_objects);
-
-            self.attrs.add_object_count(self.count[self.idx]);
-            self.idx += 1;
-        }
-
-        self.next()
+        self.nth_clamped(n)
     }
 }
 
